@@ -759,6 +759,9 @@ func (env *LEnv) New(typ *LVal, args *LVal) *LVal {
 	if args.Type != LSExpr {
 		return env.Errorf("second argument is not a list: %v", GetType(args))
 	}
+	if !isTypedefShape(typ) {
+		return env.Errorf("first argument is not a typedef: %v", GetType(typ))
+	}
 	tname := typ.Cells[0].Cells[0]
 	ctor := typ.Cells[0].Cells[1]
 	v := env.FunCall(ctor, args)
@@ -766,6 +769,20 @@ func (env *LEnv) New(typ *LVal, args *LVal) *LVal {
 		return v
 	}
 	return env.TaggedValue(tname, v)
+}
+
+// isTypedefShape reports whether a value tagged as a typedef really has the
+// layout InitializeTypedef / deftype give one: user data that is a list of a
+// name symbol and a constructor function.
+func isTypedefShape(typ *LVal) bool {
+	if typ == nil || typ.Type != LTaggedVal || len(typ.Cells) == 0 || typ.Cells[0] == nil {
+		return false
+	}
+	data := typ.Cells[0]
+	if data.Type != LSExpr || len(data.Cells) < 2 || data.Cells[0] == nil || data.Cells[1] == nil {
+		return false
+	}
+	return data.Cells[0].Type == LSymbol && data.Cells[1].Type == LFun
 }
 
 // Lambda returns a new Lambda with fun.Env and fun.Package set automatically.
